@@ -18,7 +18,7 @@ Definition all_finished (s : st) : bool :=
    reservation of the channel hides the race from compensateRacedPresence (it checks the
    channel name only); the fresh attempt then fails before adding presence itself. *)
 Definition stale_presence : list label :=
-  [LSpawn OConnect] ++ rep 7 (LStep 0 true) ++
+  [LSpawn OConnect] ++ rep 8 (LStep 0 true) ++
   [LSpawn (OSubCli 0 op_)] ++ rep 11 (LStep 2 true) ++      (* subscribed with presence *)
   [LSpawn OTick] ++ rep 5 (LStep 4 true) ++                 (* tick: snapshot, alive, membership check; parked before AddPresence *)
   [LSpawn (OUnsubCli 0)] ++ rep 6 (LStep 6 true) ++         (* unsubscribe removes the presence entry *)
@@ -38,7 +38,7 @@ Qed.
 (* An unsubscribe's RemovePresence lands after the re-subscribe's AddPresence: the connection is
    subscribed with presence but absent from it until the next tick re-adds it. *)
 Definition transient_absence : list label :=
-  [LSpawn OConnect] ++ rep 7 (LStep 0 true) ++
+  [LSpawn OConnect] ++ rep 8 (LStep 0 true) ++
   [LSpawn (OSubCli 0 op_)] ++ rep 11 (LStep 2 true) ++
   [LSpawn (OUnsubCli 0); LStep 4 true; LStep 4 true] ++     (* snapshot + delete; parked before RemovePresence *)
   [LSpawn (OSubSrv 0 op_)] ++ rep 8 (LStep 6 true) ++       (* re-subscribe adds presence and commits *)
@@ -57,4 +57,17 @@ Proof.
   match goal with |- exists s', exec ?l ?s0 = _ /\ _ => destruct (exec l s0) as [s'|] eqn:E end;
     [|vm_compute in E; discriminate].
   exists s'. split; auto. vm_compute in E. inversion E; subst. vm_compute. split; reflexivity.
+Qed.
+
+Theorem stale_presence_refuted :
+  exists sched s,
+    exec sched init = Some s /\ no_timeout sched = true /\ all_finished s = true /\
+    is_subscribed s 0 = false /\ lookup 0 (chans s) = None /\ pres s 0 = true.
+Proof. destruct stale_presence_witness as (s & H). exists stale_presence, s. exact H. Qed.
+
+Theorem transient_absence_ex :
+  exists sched s,
+    exec sched init = Some s /\ all_finished s = true /\ is_subscribed s 0 = true /\ pres s 0 = false.
+Proof.
+  destruct transient_absence_witness as (s & E & F & S & P & _). exists transient_absence, s. auto.
 Qed.
